@@ -56,6 +56,11 @@ type Violation struct {
 	Inputs []InputVal        `json:"inputs"`
 	Extra  map[string]string `json:"extra,omitempty"`
 	Known  string            `json:"known,omitempty"`
+	// Choices: the scheduler / n-way decisions of the path (for the concrete
+	// re-execution of schedule counterexamples); Confirmed names how the
+	// counterexample was validated inside the engine, if it was.
+	Choices   []int  `json:"choices,omitempty"`
+	Confirmed string `json:"confirmed,omitempty"`
 }
 
 type InputVal struct {
@@ -120,6 +125,7 @@ type Exec struct {
 	deadline   time.Time
 	TimedOut   bool
 	pending    []pendingObl
+	choicePos  int
 	model      map[string]uint64 // a model of the current path condition (nil: unknown)
 	ModelHits  int
 }
@@ -135,6 +141,9 @@ type Config struct {
 	TimeBudget   time.Duration
 	WantWitness  bool
 	ExpectPanics bool
+	// concrete re-execution: inputs take these values, n-way choices follow Choices
+	Concrete map[string]uint64
+	Choices  []int
 }
 
 // State is everything that is reset at the start of each path.
@@ -206,6 +215,13 @@ func (ex *Exec) Run() {
 			break
 		}
 	}
+	ex.Solver.PopTo(0)
+}
+
+// RunConcrete executes exactly one path with concrete inputs and choices.
+func (ex *Exec) RunConcrete() {
+	ex.choicePos = 0
+	ex.runPath()
 	ex.Solver.PopTo(0)
 }
 
@@ -625,6 +641,11 @@ func (ex *Exec) reportViolation(label, kind string, pos token.Pos, vals map[int]
 	}
 	ex.seenViol[key] = true
 	v := &Violation{Label: label, Kind: kind, Pos: p, Inputs: ex.inputVals(vals)}
+	for _, d := range ex.trace[:min(ex.pos, len(ex.trace))] {
+		if d.kind == dSched {
+			v.Choices = append(v.Choices, d.choice)
+		}
+	}
 	if ex.st.crashSt != nil {
 		model := map[string]uint64{}
 		for _, in := range ex.st.inputs {
@@ -705,6 +726,17 @@ func (ex *Exec) Choose(n int) int {
 	if n <= 1 {
 		return 0
 	}
+	if ex.Cfg.Concrete != nil {
+		c := 0
+		if ex.choicePos < len(ex.Cfg.Choices) {
+			c = ex.Cfg.Choices[ex.choicePos]
+		}
+		ex.choicePos++
+		if c >= n {
+			c = 0
+		}
+		return c
+	}
 	if ex.replaying() {
 		d := ex.trace[ex.pos]
 		ex.pos++
@@ -724,7 +756,11 @@ func (ex *Exec) Choose(n int) int {
 func (ex *Exec) NewInput(name string, w int) *term.T {
 	k := ex.st.inputSeen[name]
 	ex.st.inputSeen[name] = k + 1
-	v := term.Var(fmt.Sprintf("%s!%d", sanitize(name), k), w)
+	vn := fmt.Sprintf("%s!%d", sanitize(name), k)
+	if ex.Cfg.Concrete != nil {
+		return term.Const(ex.Cfg.Concrete[vn], w)
+	}
+	v := term.Var(vn, w)
 	ex.st.inputs = append(ex.st.inputs, v)
 	return v
 }
